@@ -283,13 +283,13 @@ _RE_COV = re.compile(r'^<(\w+) line (\d+), col (\d+) to line (\d+), col (\d+) of
 
 def run_tlc(module: str, cfg: str, *, workers: int | str = 'auto', simulate: str | None = None,
             depth: int | None = None, seed: int | None = None, coverage: bool = False,
-            env: dict | None = None, timeout: int = 1800, deadlock: bool = False,
+            env: dict | None = None, timeout: int = 900, deadlock: bool = False,
             extra: list | None = None, cwd: str | None = None, dfs: bool = False) -> TLCResult:
     """Run TLC on spec/<module>.tla with the given cfg file (path).  Returns TLCResult."""
     wd = workdir('tlc')
     res = TLCResult()
     try:
-        cmd = ['java', '-XX:+UseParallelGC', '-Xmx12g']
+        cmd = ['java', '-XX:+UseParallelGC', '-Xmx12g', '-DTLA-Library=' + SPEC]
         if dfs:
             cmd.append('-Dtlc2.tool.queue.IStateQueue=StateDeque')
         cmd += ['-cp', '/opt/veriftools/tla/tla2tools.jar:/opt/veriftools/tla/CommunityModules-deps.jar',
@@ -355,6 +355,18 @@ def run_tlc(module: str, cfg: str, *, workers: int | str = 'auto', simulate: str
 def require_ok(res: TLCResult, what: str):
     if res.error:
         raise MachineryError(f'{what}: TLC failed: {res.error[:1500]}')
+
+
+def write_mc(wd: str, base: str, defs: dict, name: str = 'MC') -> str:
+    """Write a wrapper module <name>.tla in wd that EXTENDS `base` and defines the given operators
+    (used as `Const <- MC_x` overrides for constants that a cfg file cannot express)."""
+    path = os.path.join(wd, name + '.tla')
+    with open(path, 'w') as f:
+        f.write(f'---- MODULE {name} ----\nEXTENDS {base}\n')
+        for k, v in defs.items():
+            f.write(f'{k} == {v}\n')
+        f.write('====\n')
+    return path
 
 
 def write_cfg(path: str, *, init='Init', next_='Next', spec=None, constants: dict | None = None,
